@@ -21,7 +21,16 @@ def handleLabel2 (toks : List String) : Option String := do
   match labelClasses (α := Float) y with
   | .error .tooMany => some "err TooManyClasses"
   | .error .tooFew => some "err TooFewClasses"
-  | .ok r => some s!"ok pos={r.pos} neg={r.neg} t={showList showInt r.target}"
+  | .ok r =>
+    let cp := (y.filter (· == r.pos)).length
+    let cn := (y.filter (· == r.neg)).length
+    if cp == cn then
+      -- equally frequent classes: compared up to the swap of positive/negative (targets start with +1)
+      let t := match r.target with
+        | a :: _ => if a < 0 then r.target.map (fun v => -v) else r.target
+        | [] => r.target
+      some s!"ok tie classes={min r.pos r.neg},{max r.pos r.neg} t={showList showInt t}"
+    else some s!"ok pos={r.pos} neg={r.neg} t={showList showInt r.target}"
 
 def handleLabelM (toks : List String) : Option String := do
   let y ← argNats toks "y"
